@@ -228,6 +228,10 @@ TrFault ==
                 \cup (IF e.res.c = "ok" /\ isobs /\ ~ObsValOK(e, world) THEN {"fault_value"} ELSE {})
                 \cup (IF isobs /\ ~ObsMatches(o, world) THEN {"fault_observer_effect"} ELSE {})
                 \cup (IF WellFormedObs(o) THEN {} ELSE {"wellformed"})
+                \* C12 under faults: the error (also the Err item of walk_dir) names the caller's path
+                \cup (IF e.res.c \in ErrClasses /\ ~EpOK(e.res.ep, e.p, IF HasDest(e.op) THEN e.q ELSE e.p) THEN {"errpath"} ELSE {})
+                \* C08 under faults: whatever state the failed operation left, observers issue no mutating call
+                \cup (IF "ocalls" \in DOMAIN e /\ ~ObserversPure(e) THEN {"pure"} ELSE {})
                 \cup (IF cfg.kind = "ovl" /\ "layers" \in DOMAIN e /\ lay # <<>>
                         /\ ~(\A i \in DOMAIN e.layers : i > 1 => LayerCore(e.layers[i]) = LayerCore(lay[i])) THEN {"lower"} ELSE {}) IN
      /\ world' = TreeOfObs(o)
